@@ -57,7 +57,7 @@ pub fn parts_for(id: &str) -> Option<Vec<Part>> {
         "C16" => vec![part(c16_routing::Routing, 10_000, 600_000)],
         "C17" => vec![part(tcb_checks::HostileSegments, 60_000, 4_000_000)],
         "C13" => vec![part(c13_barrier::BarrierAndStatus { mt: false }, 6_000, 300_000), part(c13_barrier::BarrierAndStatus { mt: true }, 480, 16_000)],
-        "C14" => vec![part(codecs::DecodersNoPanic, 1_000_000, 20_000_000), part(ndl::NdlNoPanic, 100_000, 3_000_000), part(c14_frames::MalformedFrames, 3_000, 200_000)],
+        "C14" => vec![part(codecs::DecodersNoPanic, 1_000_000, 20_000_000), part(ndl::NdlNoPanic, 100_000, 3_000_000), part(c14_frames::MalformedFrames, 16_000, 600_000)],
         "C19" => vec![part(ndl::NdlRoundTrip, 40_000, 2_000_000), part(ndl::NdlRun, 2_000, 100_000)],
         "C15" => vec![part(c15_ipgen::IpGenHistories, 300_000, 6_000_000), part(c15_dhcp::DhcpLeases, 5_000, 200_000)],
         "C18" => vec![part(codecs::Codecs, 400_000, 8_000_000), part(codecs::CorruptionRejected, 400_000, 8_000_000), part(c18_wire::WireChecksums, 6_000, 300_000)],
